@@ -32,6 +32,7 @@ type File struct {
 const (
 	TickPerWrite = 0 // every write gets its own tick
 	TickPerRun   = 1 // all writes of one run share a tick (coarse timestamps)
+	TickShared   = 2 // coarser still: the writes of a run share the tick of the last edit before it (saved and signed within one tick)
 )
 
 // Fault outcomes for the k-th WriteFile of a run.
@@ -115,6 +116,9 @@ type World struct {
 	// reading the configuration and building the entities that follow the first write.
 	WriteDelay time.Duration `json:"-"`
 
+	// ReadFaults: reading the named file returns its first N bytes and then an I/O error.
+	ReadFaults map[string]int `json:"-"`
+
 	// per-run state (not part of the persistent state)
 	Log      []WriteRec `json:"-"`
 	Deletes  []string   `json:"-"`
@@ -172,7 +176,9 @@ func (w *World) BeginRun(faults []Fault) {
 	w.Deletes = nil
 	w.Faults = faults
 	w.writes = 0
-	w.Clock++
+	if w.ClockMode != TickShared {
+		w.Clock++
+	}
 	w.runTick = w.Clock
 }
 
@@ -190,7 +196,48 @@ func (w *World) view() fstest.MapFS {
 
 // filesystem.Filesystem
 
-func (w *World) FS() fs.FS { return w.view() }
+func (w *World) FS() fs.FS {
+	if len(w.ReadFaults) == 0 {
+		return w.view()
+	}
+	return faultFS{w.view(), w.ReadFaults}
+}
+
+// faultFS passes everything through to the map, except that the files named in faults break off while being read.
+type faultFS struct {
+	m      fstest.MapFS
+	faults map[string]int
+}
+
+func (f faultFS) Open(name string) (fs.File, error) {
+	file, err := f.m.Open(name)
+	if err != nil {
+		return nil, err
+	}
+	if n, ok := f.faults[name]; ok {
+		return &faultFile{File: file, left: n}, nil
+	}
+	return file, nil
+}
+func (f faultFS) Stat(name string) (fs.FileInfo, error)      { return f.m.Stat(name) }
+func (f faultFS) ReadDir(name string) ([]fs.DirEntry, error) { return f.m.ReadDir(name) }
+
+type faultFile struct {
+	fs.File
+	left int
+}
+
+func (f *faultFile) Read(p []byte) (int, error) {
+	if f.left <= 0 {
+		return 0, errors.New("simfs: injected read error")
+	}
+	if len(p) > f.left {
+		p = p[:f.left]
+	}
+	n, err := f.File.Read(p)
+	f.left -= n
+	return n, err
+}
 
 func (w *World) Stat(name string) (os.FileInfo, error) { return w.view().Stat(name) }
 
